@@ -460,10 +460,11 @@ namespace Pistache::Http
                     if (!cursor.advance(1))
                         return Incomplete;
 
+                // the buffer is not NUL-terminated: convert a bounded copy of the line
+                const std::string sizeText = chunkSize.text();
                 char* end;
-                const char* raw = chunkSize.rawText();
-                auto sz         = std::strtol(raw, &end, 16);
-                if (*end != '\r')
+                auto sz = std::strtol(sizeText.c_str(), &end, 16);
+                if (sizeText.empty() || *end != '\0' || sz < 0)
                     throw std::runtime_error("Invalid chunk size");
 
                 // CRLF
